@@ -16,7 +16,15 @@ HOOK_COMMITS = ['d1d2514']
 NOTES = ('All checks are exhaustive enumerations executed on the C sources of the current /repo working tree '
          '(compiled by the driver with -DMTBL_VERIF); see DESIGN.md. Replay: ./verif replay <file>.')
 ENGINES = [
-    dict(name='seqx', path='harness/', serves_properties=['C16'], kind_free_text='bounded-exhaustive sequential explorer: odometer enumeration of inputs/configurations, lock-step C reference models, independent codec'),
+    dict(name='seqx', path='harness/ (vh.h, tbl.h, icodec.h; h_table.c h_gate.c h_lookup.c h_merger.c h_sorter.c h_encode.c h_compress.c h_varint.c h_crc.c)',
+         serves_properties=['C01', 'C02', 'C04', 'C06', 'C08', 'C09', 'C10', 'C11', 'C15', 'C16', 'C17'],
+         kind_free_text='bounded-exhaustive sequential explorer: odometer enumeration of inputs/configurations on the real code, lock-step C reference models, independent MTBL codec'),
+    dict(name='bfs', path='harness/bfs.h (h_riter.c h_merger.c h_fileset.c h_res.c)', serves_properties=['C03', 'C05', 'C07', 'C18'],
+         kind_free_text='explicit-state search over real objects: a state is an operation history replayed on fresh objects, deduplicated by a canonical hash of private fields plus reference state, run to a fixpoint or depth bound; undeduplicated tree as cross-check'),
+    dict(name='vsched', path='harness/vsched.c vsched.h h_sched.c', serves_properties=['C13', 'C14', 'C18'],
+         kind_free_text='deterministic serialising scheduler owning every pthread operation of threadpool.c; stateless DFS over schedules with preemption / spurious-wake-up bounds and happens-before state caching; ThreadSanitizer variant'),
+    dict(name='envshim', path='harness/ (h_wfault.c h_ropen.c h_cksum.c)', serves_properties=['C12', 'C19', 'C20'],
+         kind_free_text='compile-time seams for write(2), mmap, clock_gettime, mkstemp and the decode primitives; exhaustive enumeration of fault scripts / damage patterns; assertion, abort and exit captured in-process'),
 ]
 
 CHECKS['C16'] = dict(
@@ -141,7 +149,7 @@ CHECKS['C08'] = dict(
     bounds={'quick': 'sequences of length<=4 over 8 short keys (4681) x 2^n value vectors x {restart 16, restart 1}, the same sequences over a second pool of 8 keys of 4-5 bytes (restart 16), compression none, block size 1024; 7 exclusive-create scenarios',
             'thorough': 'length<=5 (37449 sequences), adds lz4'},
     nonzero=['cases', 'cases_with_refusal', 'excl_cases'],
-    assumptions=[],
+    assumptions=['the reference gate is the property statement itself (unsigned byte-wise order, proper prefix first)', 'the finished file is judged by the independent decoder'],
     budget={'quick': 240, 'thorough': 1800},
 )
 
